@@ -134,6 +134,20 @@ theorem generated_copy_defaults_ok :
     SqlglotModel.Generated.C09.deepcopyCarriesHashBeforeArgs = true ∧
     SqlglotModel.Generated.C09.deepcopyUsesSetAndAppend = true := by decide
 
+/-- `generate(copy=True)` is the only barrier between the in-place rewrites of the `*_sql` methods
+    (`Generated.C09.printingMutates`) and the caller's tree. Every call of `.sql` / `.generate` inside sqlglot that does
+    not pass the default is on this reviewed allow-list: `transpile` (both) print trees they parsed themselves;
+    `Expression.sql`, `Dialect.generate` and the Athena generator forward the caller's own `copy` flag; `table_name`
+    prints bare identifiers of a Table. A new `copy=False` call site (e.g. inside `diff`) breaks this build. -/
+theorem copy_false_sites_allowed :
+    SqlglotModel.Generated.C09.copyFalseSites =
+      ["sqlglot/__init__.py:transpile:generate:False",
+       "sqlglot/dialects/dialect.py:generate:generate:copy",
+       "sqlglot/dialects/dialect.py:transpile:generate:False",
+       "sqlglot/expressions/builders.py:table_name:sql:False",
+       "sqlglot/expressions/core.py:sql:generate:copy",
+       "sqlglot/generators/athena.py:generate:generate:copy"] := by decide +kernel
+
 /-! ### non-vacuity -/
 
 /-- the whole id space is a region; so is the empty set -/
